@@ -489,7 +489,7 @@ fn exec_list(drain: bool, ops: &[QOp], obs: &mut Vec<String>) {
     let mut log = DropLog::new();
     let mut next: u32 = 0;
     let mut sh = Shadow::default();
-    let mut list: LinkedList<Token> = LinkedList::new();
+    let mut list: LinkedList<Token> = if ops.len() % 2 == 0 { LinkedList::default() } else { LinkedList::new() };
     let mut cursors: Vec<ListCursor<Token>> = Vec::new();
     let observe = |list: &LinkedList<Token>, lab: &str, r: String, log: &mut DropLog, obs: &mut Vec<String>| {
         let len = list.len();
